@@ -1,6 +1,7 @@
 package configmodel
 
 import (
+	"bytes"
 	"context"
 	"errors"
 	"fmt"
@@ -331,6 +332,33 @@ func runMigrate(in []byte) (*reg.Result, error) {
 		}
 		if err := writeDeps(ctx, root, c); err != nil {
 			return nil, err
+		}
+		// the v1 / v1beta1 documents themselves round-trip: read, write in their own version, read again
+		for _, rel := range []string{"buf.yaml", "m1/buf.yaml", "m2/buf.yaml"} {
+			data, err := os.ReadFile(filepath.Join(root, filepath.FromSlash(rel)))
+			if err != nil {
+				continue
+			}
+			f1, err := bufconfig.ReadBufYAMLFile(bytes.NewReader(data), "buf.yaml")
+			if err != nil {
+				continue // judged by the migration itself
+			}
+			var out bytes.Buffer
+			info := map[string]any{"file": rel, "document": string(data)}
+			sig := fmt.Sprintf("version=%s/build=%s", f1.FileVersion(), c.Build)
+			if err := bufconfig.WriteBufYAMLFile(&out, f1); err != nil {
+				res.Violate("roundtrip-old-version/write-error/"+sig, info, "writing a %s buf.yaml failed: %v", f1.FileVersion(), err)
+				continue
+			}
+			info["written"] = out.String()
+			f2, err := bufconfig.ReadBufYAMLFile(bytes.NewReader(out.Bytes()), "buf.yaml")
+			if err != nil {
+				res.Violate("roundtrip-old-version/reread-error/"+sig, info, "the written %s buf.yaml is rejected: %v", f1.FileVersion(), err)
+				continue
+			}
+			if a, b := dumpFile(f1), dumpFile(f2); a != b || f1.FileVersion() != f2.FileVersion() {
+				res.Violate("roundtrip-old-version/changed/"+sig, info, "read-write-read of a %s buf.yaml changes the configuration:\nbefore\n%s\nafter\n%s", f1.FileVersion(), a, b)
+			}
 		}
 		withDeps := c.Deps != "" && c.Deps != "none"
 		lockDir := root
